@@ -17,6 +17,13 @@ def all_harness_fns():
 
 def main(argv):
     sys.setrecursionlimit(20000)
+    # trials of seeded changes only (never set by the registered commands): analyse another checkout of the repository
+    # and keep its evidence / replay files apart from the real ones
+    alt = os.environ.get("VERIF_REPO")
+    if alt:
+        sys.path.insert(0, alt)
+        import ofxtools
+        assert ofxtools.__file__.startswith(alt), ofxtools.__file__
     if argv and argv[0] == "replay":
         from sx import run
         import sx.models  # noqa
